@@ -204,6 +204,13 @@ func genCase(t *rapid.T) Case {
 	case k < 17: // hostile signature blobs
 		blob := validBlob(t)
 		var class string
+		if gen.Chance(t, "bulk", 1, 14) {
+			// size scaling: a well-formed signature with tens of thousands of elements in one of its collections
+			if m, c := gen.BulkCMS(t, blob); c != "" {
+				entry := rapid.SampledFrom([]string{"pkcs7", "pkcs7", "authenticode", "descriptor_verify"}).Draw(t, "entry")
+				return Case{Entry: entry, Input: m, Class: entry + "/" + c}
+			}
+		}
 		if rapid.Bool().Draw(t, "structural") {
 			other := gen.FixedIdents()[5]
 			m, c := gen.MutateCMS(t, blob, gen.MutEnv{OtherCert: other.Cert.Raw, OtherIssuer: other.Cert.RawIssuer, AltKey: gen.Keys()[2], NewContent: []byte{1, 2, 3}})
